@@ -431,7 +431,7 @@ func vpRestart(maxN int) {
 		k.add(s == 0)
 		k.add(true)
 	}
-	sh := vpShapes[vpChoose(len(vpShapes))]
+	sh := vpShapes[vpChoose(vpSnapShapes)]
 	ms.snapshot.Metadata.ConfState = vpConfState(sh)
 	applied := vpU64()
 	k.add(applied <= s+n)
